@@ -773,3 +773,60 @@ def _derives_from_field(b, l, field, depth=0):
                     if any(isinstance(p, dict) and p.get("n") == field for p in a["pl"]["p"]) or _derives_from_field(b, a["pl"]["l"], field, depth + 1):
                         return True
     return False
+
+
+def sup5(ctx):
+    """[tone:n] matches and sets the whole tone"""
+    from engine_err import expr_name
+    r = RuleResult("SUP-5", "[tone:n] matches by equality with the syllable's whole tone and sets the whole tone (match ∘ set closed)", floor=3)
+    lib = ctx.lib
+    mt = ctx.fn(lib, "asca::subrule::SubRule::match_tone")
+    body = hirq.strip(mt.hir["body"])
+    ok = False
+    if body.get("e") == "binary" and body["op"] == "Eq":
+        a, b_ = expr_name(body["a"]), expr_name(body["b"])
+        names = {a, b_}
+        ok = ("local", mt.param_names[1]) in names and any(x[0] == "field" and x[2] == "tone" and x[1] == ("local", mt.param_names[2]) for x in names)
+    r.inst("match_tone is `*tone == syll.tone`", fn_loc(mt), "ok" if ok else "report")
+    if not ok:
+        r.report("SUP-5|match_tone", fn_loc(mt), mt.path, "match_tone is not plain equality between the modifier's tone and the syllable's whole tone")
+    am = ctx.fn(lib, "asca::syll::Syllable::apply_syll_mods")
+    writes = [n for n in hirq.walk(am.hir["body"]) if n["e"] == "assign" and hirq.strip(n["lhs"]).get("e") == "field" and hirq.strip(n["lhs"])["name"] == "tone"]
+    par = hirq.parent_map(am.hir["body"])
+    ok = len(writes) == 1
+    if ok:
+        w = writes[0]
+        # guarded by `if let Some(t) = &mods.tone` and assigning that t
+        x = par.get(id(w))
+        guard = None
+        while x is not None:
+            if x.get("e") == "if" and hirq.strip(x["cond"]).get("e") == "letcond":
+                guard = hirq.strip(x["cond"])
+                break
+            x = par.get(id(x))
+        ok = guard is not None and any(m["e"] == "field" and m["name"] == "tone" for m in hirq.walk(guard["init"]))
+        if ok:
+            bound = {q["name"] for q in hirq.walk_pats(guard["pat"]) if q.get("p") == "bind"}
+            rhs = expr_name(w["rhs"])
+            ok = rhs[0] == "local" and rhs[1] in bound
+    r.inst("apply_syll_mods writes `.tone` once, from the Some(t) of mods.tone, unmodified", fn_loc(am), "ok" if ok else "report")
+    if not ok:
+        r.report("SUP-5|apply_syll_mods|tone", fn_loc(am), am.path, "the tone written by apply_syll_mods is not exactly the value of `mods.tone` (or is written more than once / unguarded)")
+    al = ctx.fn(lib, "asca::word::Word::alias_match_supr_mod_seg")
+    cmps = [n for n in hirq.walk(al.hir["body"]) if n["e"] == "binary" and n["op"] in ("Ne", "Eq") and any(
+        m["e"] == "field" and m["name"] == "tone" for m in hirq.walk(n))]
+    ok = len(cmps) == 1 and cmps[0]["op"] == "Ne" and any(x["e"] == "ret" for x in hirq.walk(par_if_then(al, cmps[0])))
+    r.inst("alias_match_supr_mod_seg rejects iff the tone differs from the syllable's tone", fn_loc(al), "ok" if ok else "report")
+    if not ok:
+        r.report("SUP-5|alias_match_supr_mod_seg|tone", fn_loc(al), al.path, "the alias matcher does not reject exactly when `*t != syll.tone`")
+    return r
+
+
+def par_if_then(b, node):
+    par = hirq.parent_map(b.hir["body"])
+    x = par.get(id(node))
+    while x is not None:
+        if x.get("e") == "if":
+            return x["then"]
+        x = par.get(id(x))
+    return {}
